@@ -134,6 +134,172 @@ def manual_vectors(tier):
     return out
 
 
+# ---------------------------------------------------------------- one step from every reachable abstract heap state
+# (selection device only: the abstract heap below mirrors what the library keeps - time point, identifier, alive / emptied, in
+#  std::push_heap / pop_heap array order - so that histories can be chosen that *reach* every such state; the oracle stays the
+#  reference model inside the harness)
+from fractions import Fraction as F
+
+def push_heap(a):
+    # libstdc++ __push_heap with comp(a,b)= a.tp > b.tp  (min-heap on tp)
+    i = len(a) - 1
+    v = a[i]
+    while i > 0:
+        p = (i - 1) // 2
+        if a[p][0] > v[0]:
+            a[i] = a[p]; i = p
+        else:
+            break
+    a[i] = v
+
+def pop_heap(a):
+    # libstdc++ __pop_heap: value = last; last = first; __adjust_heap(first, 0, len-1, value)
+    n = len(a) - 1
+    if n == 0:
+        a.pop(); return
+    v = a[n]; a[n] = a[0]
+    hole = 0; child = 0
+    while child < (n - 1) // 2:
+        child = 2 * (child + 1)
+        if a[child][0] > a[child - 1][0]:
+            child -= 1
+        a[hole] = a[child]; hole = child
+    if (n & 1) == 0 and child == (n - 2) // 2:
+        child = 2 * (child + 1)
+        a[hole] = a[child - 1]; hole = child - 1
+    # push_heap(hole, top=0, v)
+    while hole > 0:
+        p = (hole - 1) // 2
+        if a[p][0] > v[0]:
+            a[hole] = a[p]; hole = p
+        else:
+            break
+    a[hole] = v
+    a.pop()
+
+def step(heap, op):
+    """the repaired library's behaviour on the abstract heap (selection only)"""
+    a = [list(x) for x in heap]
+    if op[0] == S:
+        a.append([op[2], op[1], True]); push_heap(a)
+    elif op[0] in (C, CE, R):
+        idv = op[1]
+        done = False
+        while a and a[0][1] == idv:
+            alive = a[0][2]
+            pop_heap(a)
+            if alive:
+                done = True; break
+        if not done:
+            for x in a:
+                if x[1] == idv and x[2]:
+                    x[2] = False; break
+    else:
+        now = op[1]
+        while a and (a[0][0] <= now or not a[0][2]):
+            alive = a[0][2]
+            pop_heap(a)
+            if alive: break
+    return tuple(tuple(x) for x in a)
+
+def key(heap):
+    vals = sorted(set(x[0] for x in heap))
+    rk = {v: i for i, v in enumerate(vals)}
+    ids = {}
+    out = []
+    for tp, i, al in heap:
+        if i not in ids: ids[i] = len(ids)
+        out.append((rk[tp], ids[i], al))
+    return tuple(out)
+
+def positions(heap):
+    vals = sorted(set(x[0] for x in heap))
+    if not vals: return [F(0)]
+    out = [vals[0] - 1]
+    for i, v in enumerate(vals):
+        out.append(v)
+        out.append((v + vals[i + 1]) / 2 if i + 1 < len(vals) else v + 1)
+    return out
+
+def ops_from(heap, nsleeps, maxheap, maxs, nids=3, lookups=(C,)):
+    ids = []
+    for x in heap:
+        if x[1] not in ids: ids.append(x[1])
+    fresh = [i for i in range(nids) if i not in ids][:1]
+    out = []
+    if len(heap) < maxheap and nsleeps < maxs:
+        for i in ids + fresh:
+            for tp in positions(heap):
+                out.append((S, i, tp))
+    for lk in lookups:
+        for i in ids + fresh:
+            out.append((lk, i))
+    for now in positions(heap):
+        out.append((G, now))
+    return out
+
+def cover(depth, maxheap=3, maxs=6, lookups=(C,)):
+    start = ()
+    seen = {key(start): []}
+    frontier = [(start, [])]
+    for d in range(depth):
+        nxt = []
+        for heap, pre in frontier:
+            ns = sum(1 for o in pre if o[0] == S)
+            for op in ops_from(heap, ns, maxheap, maxs):
+                h2 = step(heap, op)
+                k = key(h2)
+                if k not in seen:
+                    seen[k] = pre + [op]
+                    nxt.append((h2, pre + [op]))
+        frontier = nxt
+    return seen
+
+def normalise(ops):
+    vals = sorted(set(o[2] if o[0] == S else o[1] for o in ops if o[0] in (S, G)))
+    rk = {v: i for i, v in enumerate(vals)}
+    # canonical ids by first use
+    ids = {}
+    out = []
+    for o in ops:
+        if o[0] == S:
+            if o[1] not in ids: ids[o[1]] = len(ids)
+            out.append((S, ids[o[1]], rk[o[2]]))
+        elif o[0] == G:
+            out.append((G, rk[o[1]]))
+        else:
+            if o[1] not in ids: ids[o[1]] = len(ids)
+            out.append((o[0], ids[o[1]]))
+    return out, len(vals), len(ids)
+
+
+
+def cover_vectors(max_prefix, steps='LG', lookups=(C,), maxheap=3, maxs=8):
+    """for every abstract heap state with <= maxheap entries (alive or emptied) reachable at all: its shortest history (<= max_prefix
+    operations) followed by every single operation of the kinds in `steps` (S sleep with every identifier in use / a fresh one at
+    every position relative to the entries present, L lookup of every identifier in use / an unused one, G get_expired at every
+    position); time values are then renumbered densely (the scheduler only compares them)"""
+    seen = cover(12, maxheap, maxs)
+    out = []
+    nstates = 0
+    for k, pre in seen.items():
+        if len(pre) > max_prefix:
+            continue
+        nstates += 1
+        heap = ()
+        for o in pre:
+            heap = step(heap, o)
+        ns = sum(1 for o in pre if o[0] == S)
+        for op in ops_from(heap, ns, maxheap, maxs, lookups=lookups):
+            if ('S' if op[0] == S else 'G' if op[0] == G else 'L') not in steps:
+                continue
+            h, nvals, nid = normalise(pre + [op])
+            if nvals > 8 or nid > 3:
+                continue
+            out.append(vec(h))
+    return out, nstates, len(seen)
+
+
 # ---------------------------------------------------------------- interval() generator + stop token
 def interval_vectors(maxlen, full_len=None):
     """every sequence over {0 gen(), 1 fire timer, 2 request_stop} of length <= maxlen that respects the generator's documented
@@ -208,6 +374,18 @@ def start_vectors(tier):
     return res
 
 
+COVER_QUICK_PREFIX = 5
+
+
+def order_vectors(k, every=1):
+    out = []
+    for i, perm in enumerate(itertools.permutations(range(k))):
+        if i % every:
+            continue
+        out.append(vec([(S, 0, tp) for tp in perm] + [(G, now) for now in range(k)]))
+    return out
+
+
 def plan(tier):
     units = []
     mv = manual_vectors(tier)
@@ -228,6 +406,33 @@ def plan(tier):
                       bounds='<= 5 operations, <= 3 sleeps alive, 3 identifiers',
                       outside='longer histories; time points as symbolic data (measured: a symbolic get_expired outcome makes the vector size and the resolved promise '
                               'symbolic and CBMC does not terminate in 300 s for 1 sleep + 1 get_expired); thread / thread-pool mode'))
+    # one step from every reachable abstract heap state (<= 3 entries, alive or emptied)
+    if tier == 'quick':
+        cv, nst, ntot = cover_vectors(COVER_QUICK_PREFIX, 'LG', (C,))
+        what = 'the %d of them whose shortest history has <= %d operations, followed by every single cancel / get_expired' % (nst, COVER_QUICK_PREFIX)
+    else:
+        cv, nst, ntot = cover_vectors(11, 'SLG', (C, CE, R))
+        what = 'all of them, followed by every single sleep / cancel / cancel(e) / remove / get_expired'
+    have = set(tuple(v) for v in mv)
+    cv = [v for v in cv if tuple(v) not in have]
+    units.append(dict(engine='e1', name='h_cover', tu='C12.cpp', defines=['C12_MANUAL'], entry='h_manual', unwind=200, vectors=cv,
+                      concrete=[([0, 6, 0, 0, 1, 0, 1, 3, 0, 2, 5, 1, 1, 4, 1, 4, 2], []), ([0, 5, 0, 0, 1, 0, 1, 3, 0, 2, 5, 1, 1, 1, 0], [])],
+                      space='manual mode, one step from every reachable heap state: the scheduler\'s heap is abstracted to its array of (time-point rank, identifier, alive / emptied) '
+                            'entries; a breadth-first search over that abstraction (operations as in h_manual, libstdc++ push_heap / pop_heap order mirrored) finds %d states with <= 3 entries; '
+                            'decided here: %s, each at every position relative to the entries present and with every identifier in use or unused; the history then ends with the destruction of the scheduler' % (ntot, what),
+                      data='none symbolic (time values enumerated up to order isomorphism)',
+                      bounds='heap of <= 3 entries (alive or emptied) before the step, <= 8 sleeps per history, 3 identifiers',
+                      outside='states with more than 3 heap entries; two consecutive steps from a state other than those that are themselves shortest histories'))
+    # heap order: k sleeps in every arrival order, then one get_expired per time value in ascending order
+    ov = order_vectors(6, 6 if tier == 'quick' else 1) + (order_vectors(5, 1) if tier != 'quick' else []) + (order_vectors(7, 12) if tier != 'quick' else [])
+    units.append(dict(engine='e1', name='h_order', tu='C12.cpp', defines=['C12_MANUAL'], entry='h_manual', unwind=200, vectors=ov,
+                      concrete=[([0, 12, 0, 0, 0, 0, 0, 3, 0, 0, 1, 0, 0, 2, 0, 0, 4, 0, 0, 5, 4, 0, 4, 1, 4, 2, 4, 3, 4, 4, 4, 5], [])],
+                      space='manual mode, heap order: k pending sleeps with pairwise different time points scheduled in a given arrival order (a permutation of 0..k-1), then get_expired(now) for now = 0, 1, .. k-1: '
+                            'each call must hand out exactly the sleep that is due; %s' %
+                            ('k = 6, every 6th of the 720 arrival orders (enumeration order of itertools.permutations, offset 0)' if tier == 'quick' else
+                             'k = 5 and k = 6: every arrival order; k = 7: every 12th of the 5040 arrival orders'),
+                      data='none symbolic', bounds='<= 7 pending sleeps, distinct time points, one identifier',
+                      outside='more pending sleeps; ties; cancels interleaved with a deep heap (h_cover has them for <= 3 entries)'))
     L = 4 if tier == 'quick' else 6
     units.append(dict(engine='e1', name='h_interval', tu='C12.cpp', defines=['C12_INTERVAL'], entry='h_interval', unwind=10, vectors=interval_vectors(L, 3 if tier == 'quick' else 5),
                       concrete=[([4, 0, 1, 0, 1], []), ([2, 0, 1], []), ([1, 0], []), ([3, 1, 0, 1], [])],
